@@ -100,6 +100,8 @@ func sqlExtraPhases(eval func(w *fw.W, s, aux string), heavy bool) []fw.Phase {
 			Run: func(w *fw.W) { list(w, keywordSweep()) }, Eval: eval},
 		{Name: "separator-sweep", Space: "every sequence of <=3 core tokens and 8 canonical attacks with all blanks replaced by each other separator (TAB LF VT FF CR 0xA0 NUL and an inline comment)", Share: 1,
 			Run: func(w *fw.W) { list(w, separatorSweep()) }, Eval: eval},
+		{Name: "comment-insertions", Space: "10 statements of 5-8 tokens with each blank replaced by each of 10 comment openers / one-line comments (glued and after a blank): a comment in the middle of the token window, in both dialects", Share: 1,
+			Run: func(w *fw.W) { list(w, commentInsertions()) }, Eval: eval},
 		{Name: "glued-tokens", Space: "22 literal / number / closing forms immediately followed (no blank) by each of 17 keywords / letters, in 5 statement positions", Share: 1,
 			Run: func(w *fw.W) { list(w, gluedTokens()) }, Eval: eval},
 		deltaSQLPhase(eval),
